@@ -80,6 +80,13 @@ theorem foldB_single (bs : Nat) (hbs : 0 < bs) (cf : List W → List UInt8 → L
   have := foldB_cons bs hbs cf h a [] ha
   rwa [List.append_nil, foldB_nil] at this
 
+/-- feeding `n` bytes never trips the AddLength test and never wraps the counter -/
+def Safe (P : Params W) (n : Nat) : Prop :=
+  ∀ L, L ≤ 8 * n → L < 2 ^ (8 * P.lenBytes) ∧ (8 ≤ L → P.corruptAfterAdd L = false)
+
+theorem Safe.mono {P : Params W} {n m : Nat} (h : Safe P n) (hm : m ≤ n) : Safe P m :=
+  fun L hL => h L (by omega)
+
 /-- invariant of the streaming context after the bytes `msg` have been fed -/
 structure Inv (P : Params W) (c : Ctx W) (msg : List UInt8) : Prop where
   corr : c.corrupted = false
@@ -93,13 +100,14 @@ theorem inv_reset (P : Params W) (hbs : 0 < P.blockSize) : Inv P (reset P) [] :=
   ⟨rfl, rfl, rfl, by simpa [reset] using hbs, [], 0, rfl, rfl, by simp [reset, foldB_nil]⟩
 
 theorem inv_inputByte (P : Params W) (hbs : 0 < P.blockSize) (c : Ctx W) (msg : List UInt8) (b : UInt8)
-    (hi : Inv P c msg) (hlen : 8 * (msg.length + 1) < 2 ^ (8 * P.lenBytes)) :
+    (hi : Inv P c msg) (hlen : Safe P (msg.length + 1)) :
     Inv P (inputByte P c b) (msg ++ [b]) := by
   obtain ⟨hcorr, hcomp, hl, hblk, pre, k, hpre, hmsg, hh⟩ := hi
   unfold inputByte
   simp only [hcorr, Bool.false_eq_true, if_false]
-  have h1 : ¬ (c.lenBits + 8 ≥ 2 ^ (8 * P.lenBytes)) := by omega
-  simp only [h1, if_false]
+  obtain ⟨hlt, hnc⟩ := hlen (c.lenBits + 8) (by omega)
+  have hmod : (c.lenBits + 8) % 2 ^ (8 * P.lenBytes) = c.lenBits + 8 := Nat.mod_eq_of_lt hlt
+  simp only [hmod, hnc (by omega), Bool.false_eq_true, if_false]
   split
   · rename_i hfull
     simp only [List.length_append, List.length_cons, List.length_nil] at hfull
@@ -114,17 +122,18 @@ theorem inv_inputByte (P : Params W) (hbs : 0 < P.blockSize) (c : Ctx W) (msg : 
     exact ⟨rfl, hcomp, by simp [hl]; omega, by simp; omega, pre, k, hpre, by simp [hmsg], hh⟩
 
 theorem inv_foldl (P : Params W) (hbs : 0 < P.blockSize) (l : List UInt8) (c : Ctx W) (msg : List UInt8)
-    (hi : Inv P c msg) (hlen : 8 * (msg.length + l.length) < 2 ^ (8 * P.lenBytes)) :
+    (hi : Inv P c msg) (hlen : Safe P (msg.length + l.length)) :
     Inv P (l.foldl (inputByte P) c) (msg ++ l) := by
   induction l generalizing c msg with
   | nil => simpa using hi
   | cons b t ih =>
     simp only [List.foldl_cons]
-    have := ih _ _ (inv_inputByte P hbs c msg b hi (by simp at hlen; omega)) (by simp at hlen ⊢; omega)
+    have := ih _ _ (inv_inputByte P hbs c msg b hi (hlen.mono (by simp)))
+      (hlen.mono (by simp; omega))
     simpa using this
 
 theorem inv_input (P : Params W) (hbs : 0 < P.blockSize) (l : List UInt8) (c : Ctx W) (msg : List UInt8)
-    (hi : Inv P c msg) (hlen : 8 * (msg.length + l.length) < 2 ^ (8 * P.lenBytes)) :
+    (hi : Inv P c msg) (hlen : Safe P (msg.length + l.length)) :
     Inv P (input P c l) (msg ++ l) := by
   unfold input
   split
@@ -136,14 +145,15 @@ theorem inv_input (P : Params W) (hbs : 0 < P.blockSize) (l : List UInt8) (c : C
 
 theorem inv_chunks (P : Params W) (hbs : 0 < P.blockSize) (cs : List (List UInt8)) (c : Ctx W)
     (msg : List UInt8) (hi : Inv P c msg)
-    (hlen : 8 * (msg.length + cs.flatten.length) < 2 ^ (8 * P.lenBytes)) :
+    (hlen : Safe P (msg.length + cs.flatten.length)) :
     Inv P (cs.foldl (input P) c) (msg ++ cs.flatten) := by
   induction cs generalizing c msg with
   | nil => simpa using hi
   | cons l t ih =>
     simp only [List.foldl_cons, List.flatten_cons]
     simp only [List.flatten_cons, List.length_append] at hlen
-    have := ih _ _ (inv_input P hbs l c msg hi (by omega)) (by rw [List.length_append]; omega)
+    have := ih _ _ (inv_input P hbs l c msg hi (hlen.mono (by omega)))
+      (hlen.mono (by rw [List.length_append]; omega))
     simpa using this
 
 theorem beBytes_length (n k : Nat) : (beBytes n k).length = k := by simp [beBytes]
@@ -225,13 +235,13 @@ theorem result_eq (P : Params W) (hlb : P.lenBytes + 1 ≤ P.blockSize) (c : Ctx
 /-- Reset / Input* / Result of the RFC 6234 code = Merkle–Damgård over the concatenation, for every
     chunking (empty chunks included), every length below the capacity of the length counter -/
 theorem run_eq (P : Params W) (hlb : P.lenBytes + 1 ≤ P.blockSize) (chunks : List (List UInt8))
-    (hlen : 8 * chunks.flatten.length < 2 ^ (8 * P.lenBytes)) :
+    (hlen : Safe P chunks.flatten.length) :
     run P chunks =
       some ((P.digest (MD.hash P.blockSize P.lenBytes P.compress P.h0 chunks.flatten)).take P.hashSize) := by
   have hbs : 0 < P.blockSize := by omega
   have := inv_chunks P hbs chunks (reset P) [] (inv_reset P hbs) (by simpa using hlen)
   rw [List.nil_append] at this
-  exact result_eq P hlb _ _ this hlen
+  exact result_eq P hlb _ _ this (hlen _ (Nat.le_refl _)).1
 
 /-! ## the FIPS 180-4 definitions of Spec/Sha256.lean and Spec/Sha512.lean are instances -/
 
@@ -307,23 +317,46 @@ theorem sha512_length (b : List UInt8) : (Sha512.sha512 b).length = 64 := by
   rw [sha512_eq, List.length_take, digest512_length, MD.hash, foldl_length8 _ compress512_length _ _ rfl]
   rfl
 
+/-- the 64-bit counter of sha224-256.c: safe below 2^64 bits -/
+theorem safe64 (P : Params UInt32) (hl : P.lenBytes = 8) (hc : P.corruptAfterAdd = corrupt64) (n : Nat)
+    (h : 8 * n < 2 ^ 64) : Safe P n := by
+  intro L hL
+  rw [hl, hc]
+  refine ⟨by omega, fun h8 => ?_⟩
+  simp [corrupt64]; omega
+
+/-- the counter test of sha384-512.c as compiled (32-bit words): safe below 2^96 bits -/
+theorem safe128w (P : Params UInt64) (hl : P.lenBytes = 16) (hc : P.corruptAfterAdd = corrupt128w) (n : Nat)
+    (h : 8 * n < 2 ^ 96) : Safe P n := by
+  intro L hL
+  rw [hl, hc]
+  refine ⟨by omega, fun h8 => ?_⟩
+  unfold corrupt128w
+  have hL96 : L < 2 ^ 96 := by omega
+  by_cases h1 : L % 2 ^ 32 = 0
+  · by_cases h2 : L / 2 ^ 32 % 2 ^ 32 = 0
+    · have h3 : ¬ (L / 2 ^ 64 % 2 ^ 32 = 0) := by omega
+      simp [h3]
+    · simp [h2]
+  · simp [h1]
+
 /-- SHA-224 streaming (sha224-256.c) = FIPS 180-4 -/
 theorem sha224_streaming (chunks : List (List UInt8)) (hlen : 8 * chunks.flatten.length < 2 ^ 64) :
     run sha224P chunks = some (Sha256.sha224 chunks.flatten) := by
-  rw [sha224_eq]; exact run_eq sha224P (by decide) chunks hlen
+  rw [sha224_eq]; exact run_eq sha224P (by decide) chunks (safe64 _ rfl rfl _ hlen)
 
 theorem sha256_streaming' (chunks : List (List UInt8)) (hlen : 8 * chunks.flatten.length < 2 ^ 64) :
     run sha256P chunks = some (Sha256.sha256 chunks.flatten) := by
-  rw [sha256_eq]; exact run_eq sha256P (by decide) chunks hlen
+  rw [sha256_eq]; exact run_eq sha256P (by decide) chunks (safe64 _ rfl rfl _ hlen)
 
 /-- SHA-384 streaming (sha384-512.c) = FIPS 180-4 -/
-theorem sha384_streaming (chunks : List (List UInt8)) (hlen : 8 * chunks.flatten.length < 2 ^ 128) :
+theorem sha384_streaming (chunks : List (List UInt8)) (hlen : 8 * chunks.flatten.length < 2 ^ 96) :
     run sha384P chunks = some (Sha512.sha384 chunks.flatten) := by
-  rw [sha384_eq]; exact run_eq sha384P (by decide) chunks hlen
+  rw [sha384_eq]; exact run_eq sha384P (by decide) chunks (safe128w _ rfl rfl _ hlen)
 
 /-- SHA-512 streaming (sha384-512.c) = FIPS 180-4 -/
-theorem sha512_streaming (chunks : List (List UInt8)) (hlen : 8 * chunks.flatten.length < 2 ^ 128) :
+theorem sha512_streaming (chunks : List (List UInt8)) (hlen : 8 * chunks.flatten.length < 2 ^ 96) :
     run sha512P chunks = some (Sha512.sha512 chunks.flatten) := by
-  rw [sha512_eq]; exact run_eq sha512P (by decide) chunks hlen
+  rw [sha512_eq]; exact run_eq sha512P (by decide) chunks (safe128w _ rfl rfl _ hlen)
 
 end Relic.Lemmas.ShaStream
